@@ -377,7 +377,7 @@ func checkBreadthFirst(r *Run) {
 					what string
 					call *ast.CallExpr
 				}{{"the cancellation of the traversal context", cancelCall}, {"the recording of the error", recordCall}} {
-					lits := pathConditions(fl.Body, c.call)
+					lits := controlConds(fl.Body, c.call)
 					hasErr := false
 					for _, l := range lits {
 						ast.Inspect(l.Expr, func(n ast.Node) bool {
